@@ -124,6 +124,13 @@ def creation_and_conversion(L, db, c, qt, u, fu, x=1.5):
     for ename, empty in (("list", []), ("tuple", ()), ("ndarray", np.array([]))):
         M("empty Array[%s].GetValues(foreign)" % ename, lambda: Array(c, empty, u).GetValues(fu), case)
         M("empty Array[%s].CreateCopy(unit=foreign)" % ename, lambda: Array(c, empty, u).CreateCopy(unit=fu), case)
+    # a caption on the quantity (what the unit is shown as) changes nothing about what the amount can be re-expressed in
+    M("captioned Scalar.GetValue(foreign)", lambda: Scalar(ObtainQuantity(u, c, "a caption"), x).GetValue(fu), case)
+    M("captioned Scalar.CreateCopy(unit=foreign)", lambda: Scalar(ObtainQuantity(u, c, "a caption"), x).CreateCopy(unit=fu), case)
+    M("captioned Scalar.GetFormatted(foreign)", lambda: Scalar(ObtainQuantity(u, c, "a caption"), x).GetFormatted(fu), case)
+    M("captioned Quantity.ConvertScalarValue(foreign)", lambda: ObtainQuantity(u, c, "a caption").ConvertScalarValue(x, fu), case)
+    M("captioned Array.GetValues(foreign)", lambda: Array(ObtainQuantity(u, c, "a caption"), [x, x]).GetValues(fu), case)
+    M("captioned FractionScalar.GetValue(foreign)", lambda: FractionScalar.CreateWithQuantity(ObtainQuantity(u, c, "a caption"), value=x).GetValue(fu), case)
     M("Array.GetValues(foreign)", lambda: a.GetValues(fu), case, (a,))
     M("Array[nd].GetValues(foreign)", lambda: an.GetValues(fu), case, (an,))
     M("Array.CreateCopy(unit=foreign)", lambda: a.CreateCopy(unit=fu), case, (a,))
@@ -457,6 +464,38 @@ def refusal_then_registration(ctx):
                 ctx.count("operations valid after a later registration, same with and without earlier refusals")
 
 
+def two_databases_disagree(ctx, L):
+    """Two databases alive in one process that mean different things by one category name: what one of them accepted or
+    refused for a (category, unit) pair is nothing the other may answer with - in either order of asking."""
+    from barril.units import Array, ObtainQuantity, Scalar, UnitDatabase
+
+    def make(span_type):
+        db = UnitDatabase()
+        UnitDatabase.FillSimple(db)  # length: m, mm, cm, km / time: s, min, h, d
+        db.AddCategory("span", span_type)
+        return db
+
+    asks = [
+        ("Scalar(c,x,u)", lambda u: Scalar("span", 1.0, u).GetUnit()), ("ObtainQuantity(u,c)", lambda u: ObtainQuantity(u, "span").GetUnit()), ("ObtainQuantity({c:[u,2]})", lambda u: ObtainQuantity(OrderedDict([("span", [u, 2])])).GetUnit()),
+        ("Array(c,values,u)", lambda u: Array("span", [1.0], u).GetUnit()), ("CheckCategoryUnit", lambda u: UnitDatabase.GetSingleton().CheckCategoryUnit("span", u)), ("Scalar(x,u,c)", lambda u: Scalar(1.0, u, "span").GetUnit()),
+    ]  # fmt: skip
+    for first in ("length first", "time first"):
+        dbs = {"length": make("length"), "time": make("time")}  # (both exist before anything is asked)
+        order = ("length", "time", "length") if first == "length first" else ("time", "length", "time")
+        for which in order:
+            with table.pushed(dbs[which]):
+                own, foreign = ("km", "min") if which == "length" else ("min", "km")
+                for name, fn in asks:
+                    case = {"databases": "span is a %s here; another database where it is a %s was asked %s" % (which, "time" if which == "length" else "length", "before" if which != order[0] or which == order[2] else "after"), "entry": name}
+                    ctx.ev()
+                    ctx.nt(("two databases", first, which, name))
+                    try:
+                        fn(own)
+                    except Exception as e:
+                        ctx.violation("valid-operation-refused-because-of-another-database:%s" % name, dict(case, unit=own, error="%s: %s" % (type(e).__name__, str(e)[:120])))
+                    L.must_raise("two databases: %s with the other database's unit" % name, lambda: fn(foreign), dict(case, unit=foreign))
+
+
 # --------------------------------------------------------------------------------- differential
 POOL_UNITS = {"length": ["m", "cm", "km"], "time": ["s", "min"], "mass": ["kg", "g"], "temperature": ["degC", "K"]}
 POOL_CATS = {"length": ["length", "depth"], "time": ["time"], "mass": ["mass"], "temperature": ["temperature"]}
@@ -642,6 +681,7 @@ def run(ctx):
     if ctx.shard == 0:
         override_then_create(ctx, L)
         refusal_then_registration(ctx)
+        two_databases_disagree(ctx, L)
     differential(ctx, r, 25 if ctx.tier == "quick" else 400, 70)
     ctx.notes["entry_points"] = L.entries
     ctx.inconclusive_if(len(L.entries) < 40, "only %d entry points exercised" % len(L.entries))
